@@ -407,6 +407,42 @@ def part_change(args):
     return 1, res, {}
 
 
+def part_many(args):
+    """one SD message with many Subscribe entries (as many as a datagram of 1400 / 4000 / 65000 bytes holds, and the
+    counts around them): every one of them gets its own answer"""
+    name, s, s2, collect, count = args
+    res = []
+    loop, seam, prot, log, listeners, specs, egs = build_world(name, s, s2, 0, collect)
+    try:
+        ents = []
+        for i in range(count):
+            eg = (5, 6)[i % 2] if i % 5 else 100 + i  # mostly known eventgroups, every fifth an unknown one
+            ents.append(("subscribe", s, 1, 1, 3, ((i % 16) << 16) | eg, (refcodec.v4("192.0.2.91", 4000 + (i // 32) % 200),), ()))
+        t0 = loop.time()
+        exc = None
+        data = shared_layout_message(1, ents)  # (one shared option array: at most 200 distinct endpoint options)
+        try:
+            prot.datagram_received(data, CL, False)
+        except Exception as ex:  # noqa: BLE001
+            exc = type(ex).__name__
+        loop.run_until(t0 + 2 * C)
+        acks = []
+        for t, it, d, addr in prot.transport.sent:
+            for m in refcodec.dec_sd_datagram(d):
+                acks += [(x[5] & 0xFFFF, (x[5] >> 16) & 0xF) for x in m["entries"] if x[0] == "suback"]
+        want = [(e[5] & 0xFFFF, (e[5] >> 16) & 0xF) for e in ents]
+        case = dict(server=name, many=count, collect=collect, sids=(s, s2))
+        if exc:
+            res.append(("no-exception", f"many-entries-{exc}", f"{count} Subscribe entries in one message: {exc} escaped", case))
+        if sorted(acks) != sorted(want):
+            res.append(("answer", "missing-many-entries" if len(acks) < len(want) else "extra-many-entries",
+                        f"{count} Subscribe entries in one message: {len(acks)} SubscribeAck entries on the wire", case))
+    finally:
+        seam.__exit__(None, None, None)
+        loop.dispose()
+    return 1, res, {}
+
+
 def check(ctx):
     s, s2 = sids(ctx.seed)
     jobs = [(name, s, s2, reject, mc, prior, col, ctx.thorough)
@@ -420,6 +456,8 @@ def check(ctx):
     out2 += core.pmap(part_change, [(s, s2, sc, gap) for sc in ("reject-then-accept", "accept-then-reject", "start-between", "reboot-evidence-subscribe",
                                                "reboot-evidence-empty", "reboot-evidence-multicast-empty")
                                     for gap in (0, C / 4, C / 2, C - 2.0 ** -10)], 4)
+    out2 += core.pmap(part_many, [(name, s, s2, col, count) for name in ("running", "stopped") for col in (0, C)
+                                  for count in (16, 17, 64, 65, 85, 86, 87, 128, 250, 255, 256, 1000, 4000)], 4)
     viols = []
     classes = {}
     n = 0
@@ -454,6 +492,11 @@ def check(ctx):
 def replay(ctx, body):
     c = body["case"]
     s, s2 = c["sids"]
+    if "many" in c:
+        _, res, _ = part_many((c["server"], s, s2, c["collect"], c["many"]))
+        for o in res:
+            print("FAILS:", o[:3])
+        return 1 if res else 0
     if "change" in c:
         _, res, _ = part_change((s, s2, c["change"], c["gap"]))
         for o in res:
